@@ -360,7 +360,7 @@ pub fn record_c15(a: &Args) -> usize {
     frames.push(j::mk_frame(0x0102, 0x00, &(0..122).map(|x| (x * 2) as u8).collect::<Vec<u8>>()));
     frames.push(j::mk_frame(0x0102, 0x00, &(0..128).map(|x| (x * 3) as u8).collect::<Vec<u8>>()));
     for f in &frames {
-        let total = f.to_bytes_with_newline().len();
+        let total = 13 + 2 * f.data().len(); // (the length of the documented encoding; the library's encoder is only called under observation)
         let limits: Vec<usize> = if total > 100 { if thorough { vec![1, 7, 100, 256, 600] } else { vec![100, 256, 600] } } else { vec![1, 2, 3, 5, 600] };
         for &limit in &limits {
             let ncalls = (total + limit - 1) / limit + 2;
